@@ -543,3 +543,217 @@ Proof.
   destruct (delta_decode_follows 64 bs st ltac:(lia) Hb H Hblk Hmin Hlen) as [zv [pv [E [F D]]]].
   rewrite D, E, (wrap64_cong _ _ F). reflexivity.
 Qed.
+
+(** ** Part C: round trips *)
+Lemma uleb_enc_f_bytes fuel v : bytes (uleb_enc_f fuel v).
+Proof.
+  revert v. induction fuel; intros v; cbn [uleb_enc_f]; [constructor|].
+  destruct (v <? 128) eqn:E.
+  - apply N.ltb_lt in E. constructor; [unfold byte; lia|constructor].
+  - constructor; [|apply IHfuel]. unfold byte. change 127 with (N.ones 7). rewrite N.land_ones. change (2 ^ 7) with 128.
+    pose proof (N.mod_lt v 128 ltac:(discriminate)). rewrite lor_flag by assumption. lia.
+Qed.
+
+Lemma uleb_enc_bytes v : bytes (uleb_enc v).
+Proof. apply uleb_enc_f_bytes. Qed.
+
+Lemma bytes_app (a b : list N) : bytes a -> bytes b -> bytes (a ++ b).
+Proof. intros. apply Forall_app. split; assumption. Qed.
+
+Lemma enc_mini_bytes c : bytes (enc_mini c).
+Proof. unfold enc_mini. destruct (mini_width c =? 0); [constructor|]. rewrite pack_f_eq. apply pack_ok. Qed.
+
+Lemma flat_map_bytes {A} (f : A -> list N) l : (forall x, bytes (f x)) -> bytes (flat_map f l).
+Proof. intros H. induction l; cbn [flat_map]; [constructor|apply bytes_app; auto]. Qed.
+
+Lemma chunks_Forall {A} (P : A -> Prop) n k l : Forall P l -> Forall (Forall P) (chunks n k l).
+Proof.
+  revert l. induction k; intros l H; cbn [chunks]; constructor; [apply Forall_firstn; exact H|].
+  apply IHk. apply Forall_skipn; exact H.
+Qed.
+
+Lemma enc_block_bytes blk : bytes (enc_block blk).
+Proof.
+  destruct blk as [|d0 t]; [constructor|]. unfold enc_block, block_parts.
+  apply bytes_app; [apply uleb_enc_bytes|]. apply bytes_app; [|apply flat_map_bytes; apply enc_mini_bytes].
+  apply Forall_forall. intros w Hw. apply in_map_iff in Hw. destruct Hw as [c [<- Hc]].
+  assert (Fc : Forall u64v c).
+  { pose proof (chunks_Forall u64v (N.to_nat MINI_SIZE) (N.to_nat MINIS) _ (adj_u64 (d0 :: t) (min_s d0 t))) as CF.
+    rewrite Forall_forall in CF. apply CF. exact Hc. }
+  unfold byte. eapply N.le_lt_trans; [apply (mini_width_le c 64); rewrite pow64; exact Fc|reflexivity].
+Qed.
+
+Lemma enc_blocks_bytes n ds : bytes (enc_blocks n ds).
+Proof.
+  revert ds. induction n; intros ds; cbn [enc_blocks]; [constructor|]. destruct ds; [constructor|].
+  apply bytes_app; [apply enc_block_bytes|apply IHn].
+Qed.
+
+Lemma header_bytes n first : bytes (header n first).
+Proof. unfold header. repeat apply bytes_app; apply uleb_enc_bytes. Qed.
+
+Lemma delta_bytes_int64_ok vs : bytes (delta_bytes_int64 vs).
+Proof.
+  destruct vs; [constructor|]. unfold delta_bytes_int64. apply bytes_app; [apply header_bytes|apply enc_blocks_bytes].
+Qed.
+
+Lemma pow31_lt : 2 ^ 31 < W64. Proof. rewrite W64_eq. reflexivity. Qed.
+
+(** C11: every INT64 sequence (num_values is an int32_t) decodes back, consuming exactly the bytes written *)
+Theorem delta64_roundtrip vs : vs <> [] -> Forall u64v vs -> len vs < 2 ^ 31 ->
+  delta_decode_int64 (delta_bytes_int64 vs) (len vs) = Ok (vs, len (delta_bytes_int64 vs)).
+Proof.
+  intros Hne Hu Hl.
+  pose proof (delta64_encode_conforms vs Hne Hu (N.lt_trans _ _ _ Hl pow31_lt)) as A.
+  pose proof (delta64_decode_accepts _ _ (delta_bytes_int64_ok vs) A eq_refl eq_refl Hl) as B.
+  cbn [ds_values ds_rest] in B. rewrite B. cbn [len length]. rewrite N.sub_0_r. reflexivity.
+Qed.
+
+Example delta64_roundtrip_minmax :
+  let vs := [2 ^ 63; 2 ^ 63 - 1; 2 ^ 63; 2 ^ 63 - 1; 0; 2 ^ 64 - 1] in
+  delta_decode_int64 (delta_bytes_int64 vs) 6 = Ok (vs, len (delta_bytes_int64 vs)).
+Proof. vm_compute. reflexivity. Qed.
+
+(** ** INT32: deltas wrap in 32 bits and are sign-extended; widths stay within 32 bits *)
+Definition s32v (d : N) : Prop := d < 2 ^ 31 \/ (W64 - 2 ^ 31 <= d /\ d < W64).
+Definition key (x : N) : N := u64 (x + 2 ^ 63).
+
+Lemma slt64_key a b : slt64 a b = (key a <? key b).
+Proof. reflexivity. Qed.
+
+Lemma min_s_key t : forall m d, In d (m :: t) -> key (min_s m t) <= key d.
+Proof.
+  induction t as [|x t IH]; intros m d Hd.
+  - destruct Hd as [->|[]]. cbn [min_s]. lia.
+  - cbn [min_s]. set (m' := if slt64 x m then x else m).
+    assert (Hm : key m' <= key m /\ key m' <= key x).
+    { unfold m'. rewrite slt64_key. destruct (key x <? key m) eqn:E; [apply N.ltb_lt in E|apply N.ltb_ge in E]; lia. }
+    pose proof (IH m' m' (or_introl eq_refl)) as H0.
+    destruct Hd as [->|[->|Hd]]; [lia|lia|]. apply IH. right. exact Hd.
+Qed.
+
+Lemma sub64_s32 d m : s32v d -> s32v m -> key m <= key d -> sub64 d m < 2 ^ 32.
+Proof.
+  unfold s32v, key. rewrite sub64_mod, !u64_mod. rewrite W64_eq.
+  change (2 ^ 31) with 2147483648. change (2 ^ 63) with 9223372036854775808. change (2 ^ 32) with 4294967296.
+  intros Hd Hm Hk. lia.
+Qed.
+
+Lemma s32v_u64 d : s32v d -> d < W64.
+Proof. unfold s32v. pose proof pow31_lt as P. intros [H|[_ H]]; lia. Qed.
+
+Lemma width_ok_32 : width_ok 32 s32v.
+Proof.
+  split; [exact s32v_u64|]. intros d0 t HQ. apply Forall_forall. intros x Hx.
+  apply in_map_iff in Hx. destruct Hx as [d [<- Hd]].
+  rewrite Forall_forall in HQ. apply sub64_s32; [apply HQ; exact Hd|apply HQ; apply min_s_in|].
+  apply min_s_key. exact Hd.
+Qed.
+
+Lemma sext32_s32 p : p < 2 ^ 32 -> s32v (sext32 p).
+Proof.
+  unfold sext32, s32v. rewrite W64_eq. change (2 ^ 31) with 2147483648. change (2 ^ 32) with 4294967296.
+  change (2 ^ 64) with 18446744073709551616.
+  intros H. destruct (p <? 2147483648) eqn:E; [apply N.ltb_lt in E|apply N.ltb_ge in E]; lia.
+Qed.
+
+Lemma u32_lt x : u32 x < 2 ^ 32.
+Proof. rewrite u32_mod. apply N.mod_lt. discriminate. Qed.
+
+Lemma deltas32_s32 last vs : Forall s32v (deltas32 last vs).
+Proof. revert last; induction vs; intros; cbn [deltas32]; constructor; [apply sext32_s32; apply u32_lt|auto]. Qed.
+
+Lemma deltas32_length last vs : length (deltas32 last vs) = length vs.
+Proof. revert last; induction vs; intros; cbn [deltas32 length]; auto. Qed.
+
+Lemma step32 L last v : u32 L = last -> v < 2 ^ 32 ->
+  u32 (u64 (L + sext32 (u32 (v + (2 ^ 32 - u32 last))))) = v.
+Proof.
+  intros HL Hv. subst last. unfold sext32. rewrite !u32_mod, u64_mod, W64_eq.
+  change (2 ^ 31) with 2147483648. change (2 ^ 32) with 4294967296 in *. change (2 ^ 64) with 18446744073709551616.
+  destruct (_ <? 2147483648) eqn:E; [apply N.ltb_lt in E|apply N.ltb_ge in E]; lia.
+Qed.
+
+Lemma sums_deltas32 vs : forall last L, u32 L = last -> Forall u32v vs ->
+  map u32 (fst (sums L (deltas32 last vs))) = vs.
+Proof.
+  induction vs as [|v t IH]; intros last L HL Hu; [reflexivity|]. inversion Hu; subst.
+  cbn [deltas32 sums].
+  pose proof (step32 L (u32 L) v eq_refl ltac:(assumption)) as S1.
+  specialize (IH v _ S1 ltac:(assumption)).
+  destruct (sums (u64 (L + sext32 (u32 (v + (2 ^ 32 - u32 (u32 L)))))) (deltas32 v t)) as [pv pl].
+  cbn [fst map] in *. rewrite S1, IH. reflexivity.
+Qed.
+
+Lemma wrap32_cong z p : zcong z p -> wrap 32 z = u32 p.
+Proof.
+  unfold zcong, wrap. rewrite W64_eq. intros H. rewrite u32_mod.
+  change (2 ^ Z.of_N 32)%Z with 4294967296%Z. change (Z.of_N 18446744073709551616) with 18446744073709551616%Z in H.
+  assert (E : (z mod 4294967296 = (z mod 18446744073709551616) mod 4294967296)%Z).
+  { apply Znumtheory.Zmod_div_mod; [lia|lia|exists 4294967296%Z; reflexivity]. }
+  rewrite E, H. change 4294967296%Z with (Z.of_N (2 ^ 32)). rewrite <- N2Z.inj_mod. apply N2Z.id.
+Qed.
+
+Lemma map_wrap32_cong vals ps : Forall2 zcong vals ps -> map (wrap 32) vals = map u32 ps.
+Proof. intros H. induction H as [|z p zs pst Hz _ IH]; [reflexivity|]. cbn [map]. f_equal; [apply wrap32_cong; exact Hz|exact IH]. Qed.
+
+Lemma sext32_u32 p : p < 2 ^ 32 -> u32 (sext32 p) = p.
+Proof.
+  intros H. unfold sext32. rewrite u32_mod. change (2 ^ 31) with 2147483648. change (2 ^ 32) with 4294967296 in *.
+  change (2 ^ 64) with 18446744073709551616.
+  destruct (p <? 2147483648) eqn:E; [apply N.ltb_lt in E|apply N.ltb_ge in E]; lia.
+Qed.
+
+(** C12, encoder conforms (INT32: no mini-block wider than 32 bits) *)
+Theorem delta32_encode_conforms vs : vs <> [] -> Forall u32v vs -> len vs < W64 ->
+  spec_delta_decode 32 (delta_bytes_int32 vs) =
+  Some {| ds_block := 128; ds_minis := 4; ds_values := vs; ds_rest := [] |}.
+Proof.
+  intros Hne Hu Hl. destruct vs as [|v0 t]; [contradiction|]. inversion Hu as [|? ? Hv0 Ht]; subst.
+  unfold u32v in Hv0. unfold delta_bytes_int32, spec_delta_decode.
+  set (ds := deltas32 v0 t). set (n := len (v0 :: t)) in *.
+  assert (Hs0 : sext32 v0 < W64) by (apply s32v_u64; apply sext32_s32; exact Hv0).
+  destruct (header_read n (sext32 v0) (enc_blocks (length ds) ds) Hl Hs0) as [r4 [R1 [R2 [R3 R4]]]].
+  rewrite R1, R2. change (legal_geometry BLOCK MINIS) with true. cbn [negb].
+  rewrite R3. unfold read_zigzag. rewrite R4.
+  assert (En : (n =? 0) = false) by (apply N.eqb_neq; unfold n, len; cbn [length]; lia). rewrite En.
+  change (N.to_nat (BLOCK / MINIS)) with 32%nat. change (N.to_nat MINIS) with 4%nat.
+  assert (Ln : (N.to_nat n - 1)%nat = length ds).
+  { unfold n, len, ds. rewrite deltas32_length. cbn [length]. lia. }
+  rewrite Ln. rewrite <- (app_nil_r (enc_blocks (length ds) ds)).
+  destruct (spec_blocks_enc 32 s32v (length ds) width_ok_32 ds (N.to_nat n) (unzigzag (zigzag_enc (sext32 v0))) (sext32 v0) [])
+    as [vals [E F]]; [apply deltas32_s32|lia|lia|apply unzigzag_enc_cong; exact Hs0|].
+  rewrite E. f_equal. change BLOCK with 128. change MINIS with 4. f_equal. cbn [map]. f_equal.
+  - rewrite (wrap32_cong _ (sext32 v0)) by (apply unzigzag_enc_cong; exact Hs0). apply sext32_u32; exact Hv0.
+  - rewrite (map_wrap32_cong _ _ F). apply sums_deltas32; [apply sext32_u32; exact Hv0|exact Ht].
+Qed.
+
+(** C12, decoder accepts (INT32) *)
+Theorem delta32_decode_accepts bs st : bytes bs -> spec_delta_decode 32 bs = Some st ->
+  ds_block st = 128 -> ds_minis st = 4 -> len (ds_values st) < 2 ^ 31 ->
+  delta_decode_int32 bs (len (ds_values st)) = Ok (ds_values st, len bs - len (ds_rest st)).
+Proof.
+  intros Hb H Hblk Hmin Hlen.
+  destruct (delta_decode_follows 32 bs st ltac:(lia) Hb H Hblk Hmin Hlen) as [zv [pv [E [F D]]]].
+  unfold delta_decode_int32. rewrite D, E, (map_wrap32_cong _ _ F). reflexivity.
+Qed.
+
+Lemma delta_bytes_int32_ok vs : bytes (delta_bytes_int32 vs).
+Proof.
+  destruct vs; [constructor|]. unfold delta_bytes_int32. apply bytes_app; [apply header_bytes|apply enc_blocks_bytes].
+Qed.
+
+(** C11: every INT32 sequence, INT_MIN / INT_MAX alternation included *)
+Theorem delta32_roundtrip vs : vs <> [] -> Forall u32v vs -> len vs < 2 ^ 31 ->
+  delta_decode_int32 (delta_bytes_int32 vs) (len vs) = Ok (vs, len (delta_bytes_int32 vs)).
+Proof.
+  intros Hne Hu Hl.
+  pose proof (delta32_encode_conforms vs Hne Hu (N.lt_trans _ _ _ Hl pow31_lt)) as A.
+  pose proof (delta32_decode_accepts _ _ (delta_bytes_int32_ok vs) A eq_refl eq_refl Hl) as B.
+  cbn [ds_values ds_rest] in B. rewrite B. cbn [len length]. rewrite N.sub_0_r. reflexivity.
+Qed.
+
+Example delta32_roundtrip_minmax :
+  let vs := [2 ^ 31; 2 ^ 31 - 1; 2 ^ 31; 2 ^ 31 - 1; 0; 2 ^ 32 - 1] in
+  delta_decode_int32 (delta_bytes_int32 vs) 6 = Ok (vs, len (delta_bytes_int32 vs)).
+Proof. vm_compute. reflexivity. Qed.
